@@ -11,8 +11,12 @@
    whole loop thread in recv()/join(), suspension in `await event.wait()`, child death at any
    point (by the callee, by an uncaught exception, by a failing send, or by an external kill
    before ANY child step and also in the middle of a large send).
-   What it cannot exhibit (C17 is claimed PARTIAL): OS scheduling and real durations, the
-   pipe buffer (sends never block), pickling itself (picklability is an input bit), the
+   The capacity of the pipe buffer is modelled for LARGE payloads (b_big): the rest of such a
+   message can only be written while the parent is inside rx.recv() (`parent_receiving`), so a
+   parent that waits for the child's exit before it reads deadlocks in the model as it does in
+   reality.
+   What it cannot exhibit (C17 is claimed PARTIAL): OS scheduling and real durations, the exact
+   byte counts of the pipe buffer (a payload is either small or larger than the buffer), pickling itself (picklability is an input bit), the
    asyncio selector machinery behind add_reader.  Those are covered by the stress run only.
 
    A blocked process is a step that is *not enabled* (`None`); there is no fuel in the
@@ -323,15 +327,28 @@ Section Local.
       end
     else None.
 
-  Definition c_do (s : lst) (a : caction) : lst :=
+  (* capacity of the pipe buffer: a LARGE message (b_big: more than the buffer holds) is written in
+     two steps; the first fills the buffer, the second can only happen while the reader DRAINS the
+     pipe, i.e. while the parent process sits in rx.recv() (rx.poll() and the selector consume
+     nothing).  Until then the child is blocked in its write (a step that is not enabled). *)
+  Definition parent_receiving (s : lst) : bool :=
+    p_running s && e_rx (p_ends (ps s)) &&
+    match nth_error P (p_pc (ps s)) with
+    | Some (PRecv _) | Some (PRecvDefer _) => true
+    | _ => false
+    end.
+
+  Definition c_do (s : lst) (a : caction) : option lst :=
     let c := cs s in
     match c_payload c a with
-    | None => c_die s
+    | None => Some (c_die s)
     | Some pl =>
         if b_big b then
-          if c_sending c then c_set s (c_adv c CPHandled) (k_send_end (data s) pl)
-          else c_set s (c_begin_send c) (k_send_begin (data s))
-        else c_set s (c_adv c CPHandled) (k_send (data s) pl)
+          if c_sending c then
+            if parent_receiving s then Some (c_set s (c_adv c CPHandled) (k_send_end (data s) pl))
+            else None                                              (* the buffer is full: write() blocks *)
+          else Some (c_set s (c_begin_send c) (k_send_begin (data s)))
+        else Some (c_set s (c_adv c CPHandled) (k_send (data s) pl))
     end.
 
   Definition c_step (s : lst) : option lst :=
@@ -350,13 +367,13 @@ Section Local.
                  end
         | Some (CCatch cls a) =>
             match c_pend c with
-            | CPRaise => if existsb (b_isa b) cls then Some (c_do s a)
+            | CPRaise => if existsb (b_isa b) cls then c_do s a
                          else Some (c_set s (c_adv c CPRaise) (data s))
             | pe => Some (c_set s (c_adv c pe) (data s))
             end
         | Some (CElse a) =>
             match c_pend c with
-            | CPOk | CPOkCoroutine => Some (c_do s a)
+            | CPOk | CPOkCoroutine => c_do s a
             | pe => Some (c_set s (c_adv c pe) (data s))
             end
         | Some CTryEnd =>
@@ -381,7 +398,7 @@ Definition lchoices : list lchoice := [LParent; LChild; LKill; LCancel].
 Definition lstep (P : list pop) (C : list cop) (b : beh) (env : nat) (c : lchoice) (s : lst) : option lst :=
   match c with
   | LParent => p_step P b env s
-  | LChild => c_step C b s
+  | LChild => c_step P C b s
   | LKill => c_kill s
   | LCancel => p_cancel P s
   end.
